@@ -317,6 +317,8 @@ class Depth(Leg):
             yield {"length": length}
         # a callback stored on one vertex that closes over the far end of the chain
         yield {"length": 3000, "closure": True}
+        # the same with helper closures that share an inner function (a diamond, not a cycle)
+        yield {"length": 3000, "closure": "diamond"}
         # a script-level vertex class (pickled by value) that keeps a class attribute pointing into the chain
         yield {"length": 600, "main_root": True}
 
@@ -339,7 +341,14 @@ CLOSURE = %r
 if CLOSURE:
     # the ONLY way from the pickled root into the chain is the closure of a callback stored on the root
     root = Vertex()
-    root.cb = (lambda t: (lambda: t))(vs[0])
+    if CLOSURE == "diamond":
+        def make(t):
+            log = lambda: None                      # noqa: E731
+            describe = lambda: log                  # noqa: E731
+            return lambda: (log, describe, t)[2]    # log is reachable along two closure paths
+        root.cb = make(vs[0])
+    else:
+        root.cb = (lambda t: (lambda: t))(vs[0])
 else:
     root = None
 for a, b in zip(vs, vs[1:]):
@@ -368,7 +377,7 @@ if CLOSURE:
     c = c.cb().universes[0]
 ok = len(c.vertices) == n and [v.i for v in c.vertices] == list(range(n)) and all(len(v.links) in (1, 2) for v in c.vertices)
 print(depth["max"], int(ok))
-''' % (str(C.REPO), case["length"], bool(case.get("main_root")), bool(case.get("closure")))
+''' % (str(C.REPO), case["length"], bool(case.get("main_root")), case.get("closure") or False)
         p = subprocess.run([sys.executable, "-c", script], stdout=subprocess.PIPE, stderr=subprocess.PIPE, text=True, timeout=600)
         if p.returncode != 0:
             return {"error": (p.stderr.strip().splitlines() or ["?"])[-1]}
